@@ -520,7 +520,6 @@ func (sm *shardManagerImpl) UnregisterShard(clientShardID history.ClusterShardID
 		// Update metrics after local shards change
 		sm.mutex.Unlock()
 
-		sm.removeLocalShard(clientShardID)
 		sm.broadcastShardChange("unregister", clientShardID)
 
 		// Trigger memberlist metadata update to propagate NodeMeta to other nodes
@@ -1057,14 +1056,6 @@ func (sm *shardManagerImpl) addLocalShard(shard history.ClusterShardID) time.Tim
 	sm.localShards[key] = ShardInfo{ID: shard, Created: now}
 
 	return now
-}
-
-func (sm *shardManagerImpl) removeLocalShard(shard history.ClusterShardID) {
-	sm.mutex.Lock()
-	defer sm.mutex.Unlock()
-
-	key := ClusterShardIDtoShortString(shard)
-	delete(sm.localShards, key)
 }
 
 // RegisterActiveReceiver registers an active receiver for watermark propagation
